@@ -22,7 +22,7 @@ def noExtraInternal (before after : FdTable) (allowed : List Fd) : Bool :=
   after.openFds.all fun (fd, _) => decide (fd < 10) || (before.get fd).isSome || allowed.contains fd
 
 def specVerdict (before : FdTable) (k : Kind) (rs : List Redir) (tr : Trace) : String :=
-  let persists := k == .exec && tr.exited.isNone
+  let persists := (k == .exec || k == .commandExec) && tr.status == some 0
   if !persists && !sameTable before tr.t then "FAIL:table-not-restored"
   else if !noExtraInternal before tr.t (if persists then rs.map (·.fd) else []) then "FAIL:descriptor-left-open"
   else match tr.during with
